@@ -23,6 +23,7 @@ from collections import defaultdict
 
 VERIF = os.path.dirname(os.path.dirname(os.path.abspath(__file__)))
 REPO = os.environ.get('VERIF_REPO', '/repo')
+OUT = os.environ.get('VERIF_OUT', VERIF)      # where evidence/ and replays/ are written (scratch dir for mutant runs)
 MAX_RECORDS = 3
 
 
@@ -343,11 +344,11 @@ def run_cases(mod, tier, seed, budget_s, nproc=None):
 # ----------------------------------------------------------------------------------------
 
 def write_replay(prop, rec):
-    os.makedirs(os.path.join(VERIF, 'replays'), exist_ok=True)
+    os.makedirs(os.path.join(OUT, 'replays'), exist_ok=True)
     body = dict(property=prop, obligation=rec['obligation'], case=rec['case'], features=rec.get('features'),
                 expected=rec.get('expected'), observed=rec.get('observed'), message=rec.get('message'))
     h = jhash(dict(o=rec['obligation'], c=rec['case']))
-    path = os.path.join(VERIF, 'replays', '%s-%s-%s.json' % (prop, rec['obligation'].replace('/', '_'), h))
+    path = os.path.join(OUT, 'replays', '%s-%s-%s.json' % (prop, rec['obligation'].replace('/', '_'), h))
     with open(path, 'w') as f:
         json.dump(body, f, indent=1, sort_keys=True, default=str)
     return path
@@ -402,8 +403,8 @@ def report(mod, ctx, info, tier, seed, wall, extra_cov=None):
     ev = dict(property_id=prop, tier=tier, seed=seed, level='model_checking', coverage=cov,
               assumptions=list(getattr(mod, 'ASSUMPTIONS', [])), wall_s=round(wall, 3),
               violations=sum(ctx.nviol.values()))
-    os.makedirs(os.path.join(VERIF, 'evidence'), exist_ok=True)
-    with open(os.path.join(VERIF, 'evidence', prop + '.json'), 'w') as f:
+    os.makedirs(os.path.join(OUT, 'evidence'), exist_ok=True)
+    with open(os.path.join(OUT, 'evidence', prop + '.json'), 'w') as f:
         json.dump(ev, f, indent=1, sort_keys=True, default=str)
     for ln in lines:
         print(ln)
